@@ -9,7 +9,9 @@ package faultos
 import (
 	"errors"
 	"io"
+	stdos "os"
 	"sort"
+	"time"
 )
 
 var (
@@ -197,6 +199,15 @@ func Image(log []WriteRec, name string, keep []bool, tornIdx, tornLen int) []byt
 		if w.Name != name || !keep[i] {
 			continue
 		}
+		if w.Off < 0 {
+			// a truncation to -Off-1 bytes
+			size := -w.Off - 1
+			for int64(len(data)) < size {
+				data = append(data, 0)
+			}
+			data = data[:size]
+			continue
+		}
 		d := w.Data
 		if i == tornIdx && tornLen >= 0 && tornLen < len(d) {
 			d = d[:tornLen]
@@ -208,4 +219,185 @@ func Image(log []WriteRec, name string, keep []bool, tornIdx, tornLen int) []byt
 		copy(data[w.Off:end], d)
 	}
 	return data
+}
+
+// ---- further parts of package os that a rewrite of cmd/cache/file.go might plausibly use ----
+
+// Re-exported names of package os.
+const (
+	O_RDONLY = stdos.O_RDONLY
+	O_WRONLY = stdos.O_WRONLY
+	O_RDWR   = stdos.O_RDWR
+	O_APPEND = stdos.O_APPEND
+	O_CREATE = stdos.O_CREATE
+	O_EXCL   = stdos.O_EXCL
+	O_SYNC   = stdos.O_SYNC
+	O_TRUNC  = stdos.O_TRUNC
+)
+
+type (
+	FileMode = stdos.FileMode
+	FileInfo = stdos.FileInfo
+)
+
+var ErrExist = stdos.ErrExist
+
+func IsNotExist(err error) bool { return err == ErrNotExist || stdos.IsNotExist(err) }
+func IsExist(err error) bool    { return err == ErrExist || stdos.IsExist(err) }
+
+type fileInfo struct {
+	name string
+	size int64
+}
+
+func (fi fileInfo) Name() string       { return fi.name }
+func (fi fileInfo) Size() int64        { return fi.size }
+func (fi fileInfo) Mode() FileMode     { return 0o644 }
+func (fi fileInfo) ModTime() time.Time { return time.Time{} }
+func (fi fileInfo) IsDir() bool        { return false }
+func (fi fileInfo) Sys() interface{}   { return nil }
+
+// OpenFile honours O_CREATE, O_TRUNC, O_EXCL, O_APPEND and the access mode.
+func OpenFile(name string, flag int, perm FileMode) (*File, error) {
+	fs := Current
+	if f, ok := fs.op("open"); ok && f.Kind == "error" {
+		return nil, ErrInjected
+	}
+	_, exists := fs.Files[name]
+	switch {
+	case !exists && flag&O_CREATE == 0:
+		return nil, ErrNotExist
+	case exists && flag&O_CREATE != 0 && flag&O_EXCL != 0:
+		return nil, ErrExist
+	}
+	if !exists || flag&O_TRUNC != 0 {
+		fs.Files[name] = []byte{}
+		fs.Trunc[name]++
+	}
+	f := &File{fs: fs, name: name, ro: flag&(O_WRONLY|O_RDWR) == 0}
+	if flag&O_APPEND != 0 {
+		f.off = int64(len(fs.Files[name]))
+	}
+	return f, nil
+}
+
+func Stat(name string) (FileInfo, error) {
+	fs := Current
+	d, ok := fs.Files[name]
+	if !ok {
+		return nil, ErrNotExist
+	}
+	return fileInfo{name, int64(len(d))}, nil
+}
+
+func Remove(name string) error {
+	fs := Current
+	if f, ok := fs.op("remove"); ok && f.Kind == "error" {
+		return ErrInjected
+	}
+	if _, ok := fs.Files[name]; !ok {
+		return ErrNotExist
+	}
+	delete(fs.Files, name)
+	return nil
+}
+
+func Rename(oldpath, newpath string) error {
+	fs := Current
+	if f, ok := fs.op("rename"); ok && f.Kind == "error" {
+		return ErrInjected
+	}
+	d, ok := fs.Files[oldpath]
+	if !ok {
+		return ErrNotExist
+	}
+	fs.Files[newpath] = d
+	delete(fs.Files, oldpath)
+	return nil
+}
+
+func MkdirAll(path string, perm FileMode) error { return nil }
+
+func ReadFile(name string) ([]byte, error) {
+	f, err := Open(name)
+	if err != nil {
+		return nil, err
+	}
+	defer f.Close()
+	return io.ReadAll(f)
+}
+
+func WriteFile(name string, data []byte, perm FileMode) error {
+	f, err := Create(name)
+	if err != nil {
+		return err
+	}
+	if _, err := f.Write(data); err != nil {
+		f.Close()
+		return err
+	}
+	return f.Close()
+}
+
+func (f *File) Stat() (FileInfo, error) {
+	if f.closed {
+		return nil, ErrClosed
+	}
+	return fileInfo{f.name, int64(len(f.fs.Files[f.name]))}, nil
+}
+
+func (f *File) ReadAt(p []byte, off int64) (int, error) {
+	if f.closed {
+		return 0, ErrClosed
+	}
+	ft, faulted := f.fs.op("read")
+	if faulted && ft.Kind == "error" {
+		return 0, ErrInjected
+	}
+	data := f.fs.Files[f.name]
+	if off >= int64(len(data)) {
+		return 0, io.EOF
+	}
+	n := copy(p, data[off:])
+	if faulted && ft.Kind == "short" && ft.Short < n {
+		n = ft.Short
+	}
+	if n < len(p) {
+		return n, io.EOF
+	}
+	return n, nil
+}
+
+func (f *File) WriteAt(p []byte, off int64) (int, error) {
+	save := f.off
+	f.off = off
+	n, err := f.Write(p)
+	f.off = save
+	return n, err
+}
+
+func (f *File) WriteString(s string) (int, error) { return f.Write([]byte(s)) }
+
+func (f *File) Truncate(size int64) error {
+	if f.closed {
+		return ErrClosed
+	}
+	if ft, ok := f.fs.op("truncate"); ok && ft.Kind == "error" {
+		return ErrInjected
+	}
+	d := f.fs.Files[f.name]
+	for int64(len(d)) < size {
+		d = append(d, 0)
+	}
+	f.fs.Files[f.name] = d[:size]
+	f.fs.Log = append(f.fs.Log, WriteRec{Name: f.name, Off: -size - 1})
+	return nil
+}
+
+// Sync: nothing is modelled as durable before or after it (the crash enumeration stays as pessimistic as before).
+func (f *File) Sync() error {
+	if ft, ok := f.fs.op("sync"); ok && ft.Kind == "error" {
+		return ErrInjected
+	}
+	return nil
 }
